@@ -110,6 +110,31 @@ def adversaries(tier):
     A.append(('rev-client-abort', 'reverse', [('send', rev), ('close',)], up, dns, {}))
     A.append(('rev-post-body', 'reverse', [('send', b'POST /r1 HTTP/1.1\r\nHost: f\r\nContent-Length: 3\r\n\r\nabc'),
                                            ('wait_idle',), ('close',)], up, dns, {}))
+    # a keep-alive connection whose life frees and re-creates upstream descriptors
+    rev2 = b'GET /r2 HTTP/1.1\r\nHost: front\r\n\r\n'
+    up2 = {('10.0.0.8', 80): lambda: HttpOrigin([[R_UP], [R_UP]]), ('10.0.0.7', 80): lambda: HttpOrigin([[R_UP], [R_UP]])}
+    dns2 = dict(dns, **{'up2.test': '10.0.0.7'})
+    A.append(('rev-switch-upstream', 'reverse', [('send', rev), ('wait_recv', len(R_UP)), ('send', rev2), ('wait_recv', 2 * len(R_UP)),
+                                                 ('wait_idle',), ('close',)], up2, dns2, {}))
+    A.append(('rev-switch-back', 'reverse', [('send', rev), ('wait_recv', len(R_UP)), ('send', rev2), ('wait_recv', 2 * len(R_UP)),
+                                             ('send', rev), ('wait_recv', 3 * len(R_UP)), ('wait_idle',), ('close',)], up2, dns2, {}))
+    A.append(('rev-switch-then-abort', 'reverse', [('send', rev), ('wait_recv', len(R_UP)), ('send', rev2), ('close',)], up2, dns2, {}))
+    A.append(('fwd-upstream-closes-between', 'forward', [('send', fwd), ('wait_recv', len(R_A)), ('wait_turns', 12), ('send', fwd),
+                                                         ('wait_idle',), ('close',)],
+              {('10.0.0.9', 80): lambda: HttpOrigin([[R_A]], then={0: 'close'})}, dns, {}))
+    # an upstream that accepts and then never reads, while the adversary uploads far more than the socket
+    # buffers hold: whatever the proxy does with the backlog, it must not sit in a blocking send()
+    bigbody = b'u' * 65536
+    stuck = lambda: RawOrigin(greeting=[], no_read=True)     # noqa: E731
+    A.append(('rev-upload-upstream-not-reading', 'reverse',
+              [('send', b'POST /r1 HTTP/1.1\r\nHost: f\r\nContent-Length: %d\r\n\r\n' % len(bigbody)), ('send', bigbody[:30000]),
+               ('send', bigbody[30000:]), ('wait_idle',), ('close',)], {('10.0.0.8', 80): stuck}, dns, {}))
+    A.append(('fwd-upload-upstream-not-reading', 'forward',
+              [('send', b'POST http://adv.test/u HTTP/1.1\r\nHost: adv.test\r\nContent-Length: %d\r\n\r\n' % len(bigbody)),
+               ('send', bigbody[:30000]), ('send', bigbody[30000:]), ('wait_idle',), ('close',)], {('10.0.0.9', 80): stuck}, dns, {}))
+    A.append(('tunnel-upload-upstream-not-reading', 'tunnel',
+              [('send', con), ('wait_recv', len(ACK)), ('send', bigbody[:30000]), ('send', bigbody[30000:]), ('wait_idle',), ('close',)],
+              {('10.0.0.9', 443): stuck}, dns, {}))
     return A
 
 
@@ -130,8 +155,9 @@ def scenarios(tier):
                 out.append(Scenario(
                     '%s/%s/canary@%s' % (mode, name, off), fa, flags_opts=fo, mode=mode, clients=clients,
                     origins=og, dns=d, net=net, kinds='AF' if tier == 'quick' else 'AFOE', horizon=600,
-                    features={'mode': mode, 'role': role, 'adversary': name, 'canary_offset': str(off),
-                              '_fault_clients': {'c0'}, '_fault_addrs': ADV_ADDRS}))
+                    features=dict({'mode': mode, 'role': role, 'adversary': name, 'canary_offset': str(off),
+                                   '_fault_clients': {'c0'}, '_fault_addrs': ADV_ADDRS},
+                                  **({'_sockbuf': 4096} if 'not-reading' in name else {}))))
     return out + tls_front_scenarios(tier) + idle_scenarios(tier) + neighbour_scenarios(tier)
 
 
@@ -260,6 +286,10 @@ def check(w):
     if w.died or w.run_exc:
         out.append({'symptom': 'executor_died', 'features': {}, 'detail': w.run_exc})
         return out
+    if w.blocked:
+        # the one thread that serves every connection of this worker sat in a blocking socket call
+        out.append({'symptom': 'event_loop_blocked_in_a_socket_call', 'features': {},
+                    'detail': {'calls': w.blocked[:5]}})
     if w.scn.features.get('_no_canary'):
         if any(not c.connected for c in w.clients):
             out.append({'symptom': 'later_connection_never_accepted', 'features': {}, 'detail': None})
